@@ -53,7 +53,7 @@ var values = []value{
 	{ID: "str-empty", Expr: `""`},
 	{ID: "str-format", Expr: `"%v %s %d %q %x %5.2f %T %%"`},
 	{ID: "str-bad-utf8", Expr: `string(byte_slice([255, 254, 0, 128]))`},
-	{ID: "str-long", Setup: `ls := strings.repeat("ab", 10000)`, Expr: "ls"},
+	{ID: "str-long", Setup: `lstr := strings.repeat("ab", 10000)`, Expr: "lstr"},
 	{ID: "str-unicode", Expr: `"héllo, 世界 🎉"`},
 	{ID: "str-json", Expr: `"{\"a\": [1, {\"b\": null}]}"`},
 	{ID: "str-json-bad", Expr: `"[1, {"`},
@@ -69,7 +69,7 @@ var values = []value{
 	{ID: "int-max", Expr: `9223372036854775807`},
 	{ID: "int-min", Expr: `(-9223372036854775807 - 1)`},
 	{ID: "float", Expr: `1.5`},
-	{ID: "float-huge", Expr: `1e308`},
+	{ID: "float-huge", Expr: `float("1e308")`},
 	{ID: "float-inf", Expr: `math.inf()`},
 	{ID: "float-neginf", Expr: `(-math.inf())`},
 	{ID: "float-nan", Expr: `(math.inf() - math.inf())`},
@@ -518,7 +518,10 @@ func specialScripts(thorough bool) []special {
 	add("threads-map-delete", shared, `m := {}; func w() { for i := range 100000 { m["k"] = i; delete(m, "k") } }; t1 := spawn(w); t2 := spawn(w); t1.wait(); t2.wait(); 1`)
 	for i := range out {
 		out[i].Conc = true
-		out[i].DeadlineMS = 8000
+		out[i].DeadlineMS = 1500
+		if strings.HasPrefix(out[i].Name, "threads-") || strings.HasPrefix(out[i].Name, "recursion-bounded-") || strings.HasPrefix(out[i].Name, "sprintf-") {
+			out[i].DeadlineMS = 8000
+		}
 	}
 	_ = thorough
 	return out
